@@ -103,11 +103,11 @@ def format_job(seed):
 def api_job(job):
     seed, kind = job
     rng = random.Random(seed)
-    office = "H" if kind == "district" else "S"
-    extra = {"n_districts": 4, "n_units": rng.randint(110, 150)} if office == "H" else {}      # districts 1, 10, 2, 3: string order differs from numeric order
+    office = ["H", "Y", "Z"][seed % 3] if kind == "district" else "S"           # every district office, not only the House
+    extra = {"n_districts": 4, "n_units": rng.randint(110, 150)} if kind == "district" else {}      # districts 1, 10, 2, 3: string order differs from numeric order
     case = gen.gen_case(rng, pi_method="bootstrap", office=office, n_states=2, n_unexpected=0,
-                        aggregates=["postal_code", "district", "unit"] if office == "H" else ["postal_code", "unit"], alphas=[0.7, 0.9], **extra)
-    if office == "H":
+                        aggregates=["postal_code", "district", "unit"] if kind == "district" else ["postal_code", "unit"], alphas=[0.7, 0.9], **extra)
+    if kind == "district":
         contests = sorted({f"{b['postal_code']}_{b['district']}" for b in case["baseline"]})
     else:
         contests = sorted({b["postal_code"] for b in case["baseline"]})
@@ -136,18 +136,22 @@ def api_job(job):
     res = {"job": list(job), "ok": h["ok"], "exc": h.get("exc"), "bad": bad, "lhs": lhs, "rhs": rhs, "stops": stops, "fails": [], "office": office}
     if not h["ok"]:
         return res
-    agg = "district" if office == "H" else "postal_code"
+    agg = "district" if kind == "district" else "postal_code"
     cols = aggfam.aggregate_list(office, agg)
-    for rec in h["agg"][f"margin|{agg}"]["rows"]:
-        name = "_".join(rec[c] for c in cols)
-        for a in case["params"]["prediction_intervals"]:
-            lo, hi, p = rec[f"lower_{a}_margin"], rec[f"upper_{a}_margin"], rec["pred_margin"]
-            if name in lhs and (p < 0.005 - 1e-12 or (name not in stops and lo < 0)):
-                res["fails"].append(f"{name} called left: pred {p}, lower_{a} {lo}")
-            if name in rhs and (p > -0.005 + 1e-12 or (name not in stops and hi > 0)):
-                res["fails"].append(f"{name} called right: pred {p}, upper_{a} {hi}")
-            if name in stops and name not in lhs and name not in rhs and not (lo <= 0 <= hi):
-                res["fails"].append(f"{name} stop-listed: interval_{a} [{lo}, {hi}] does not contain 0")
+    # both what the model handed to the results handler and the table the caller finally receives
+    final_name = {"postal_code": "state_data", "district": "district_data"}[agg]
+    sources = [("", h["agg"][f"margin|{agg}"]["rows"])] + ([(f" (returned {final_name})", h["final_tables"][final_name])] if final_name in h.get("final_tables", {}) else [])
+    for tag, rows_ in sources:
+        for rec in rows_:
+            name = "_".join(str(rec[c]) for c in cols)
+            for a in case["params"]["prediction_intervals"]:
+                lo, hi, p = rec[f"lower_{a}_margin"], rec[f"upper_{a}_margin"], rec["pred_margin"]
+                if name in lhs and (p < 0.005 - 1e-12 or (name not in stops and lo < 0)):
+                    res["fails"].append(f"{name} called left: pred {p}, lower_{a} {lo}{tag}")
+                if name in rhs and (p > -0.005 + 1e-12 or (name not in stops and hi > 0)):
+                    res["fails"].append(f"{name} called right: pred {p}, upper_{a} {hi}{tag}")
+                if name in stops and name not in lhs and name not in rhs and not (lo <= 0 <= hi):
+                    res["fails"].append(f"{name} stop-listed: interval_{a} [{lo}, {hi}] does not contain 0{tag}")
     # a contest that is neither called nor stop-listed is reported exactly as in the run without any call
     if h_plain is not None and h_plain["ok"]:
         plain = {"_".join(r[c] for c in cols): r for r in h_plain["agg"][f"margin|{agg}"]["rows"]}
